@@ -2,6 +2,8 @@
 
 package sod
 
+import "time"
+
 // C04 — close/reopen (or abandoning the handle in synchronous mode)
 // preserves objects, every search, ordering and constraint behaviour.
 func VH_C04_reopen() {
@@ -135,4 +137,59 @@ func VH_C04_order() {
 			vAssert("C04.order.same_sequence", before[i] == after[i])
 		}
 	}
+}
+
+// VH_C04_settings: the settings part of the schema survives Close/Open: a
+// new handle reports the same extension, compression, cache flag and
+// asynchronous-write parameters (threshold symbolic), and behaves accordingly
+// (object files carry the configured name; with async on a write is pending,
+// not on disk, until flushed).
+func VH_C04_settings() {
+	root := vTempDir()
+	db := Open(root)
+	LowercaseNames = false
+	s := DefaultSchema
+	kind := vChoice("kind", 5)
+	threshold := vInt("threshold")
+	vAssume(vAnd(threshold >= 1, threshold <= 1000))
+	switch kind {
+	case 1:
+		s.Cache = true
+	case 2:
+		s = DefaultSchemaCompress
+	case 3:
+		s.Asynchrone(threshold, 250*time.Millisecond)
+	case 4:
+		s.Extension = ".bin"
+		s.Cache = true
+	}
+	vAssert("C04.settings.create", db.Create(&vObj{}, s) == nil)
+	o := &vObj{A: 1, S: "s"}
+	vAssert("C04.settings.insert", db.InsertOrUpdate(o) == nil)
+	vAssert("C04.settings.close", db.Close() == nil)
+	db2 := Open(root)
+	got, err := db2.Schema(&vObj{})
+	vAssert("C04.settings.schema", err == nil && got != nil)
+	if err != nil || got == nil {
+		return
+	}
+	vAssert("C04.settings.extension", got.Extension == s.Extension)
+	vAssert("C04.settings.compress", got.Compress == s.Compress)
+	vAssert("C04.settings.cache", got.Cache == s.Cache)
+	vAssert("C04.settings.async_presence", (got.AsyncWrites != nil && got.AsyncWrites.Enable) == (kind == 3))
+	if kind == 3 && got.AsyncWrites != nil {
+		vAssert("C04.settings.async_threshold", got.AsyncWrites.Threshold == threshold)
+		vAssert("C04.settings.async_timeout", got.AsyncWrites.Timeout == 250*time.Millisecond)
+	}
+	// behaviour follows the reloaded settings
+	n := &vObj{A: 2, S: "t"}
+	vAssert("C04.settings.insert2", db2.InsertOrUpdate(n) == nil)
+	ext := s.Extension
+	if s.Compress {
+		ext += ".gz"
+	}
+	onDisk := vFileExists(root + "/sod.vObj/" + n.UUID() + ext)
+	vAssert("C04.settings.behaviour", onDisk == (kind != 3))
+	vAssert("C04.settings.close2", db2.Close() == nil)
+	vAssert("C04.settings.flushed_at_close", vFileExists(root+"/sod.vObj/"+n.UUID()+ext))
 }
